@@ -286,8 +286,8 @@ func init() {
 				return []float64{p, n}
 			},
 			directed: [][]float64{{0.5, 10}, {0.25, 1}, {0.125, 0}, {0, 5}, {1, 5}, {0.875, 100}, {0.12010524195153012, 2}},
-			pclass:  func(p []float64) string { return probClass(p[0]) },
-			support: func(p []float64) (float64, float64, bool) { return 0, p[1], true },
+			pclass:   func(p []float64) string { return probClass(p[0]) },
+			support:  func(p []float64) (float64, float64, bool) { return 0, p[1], true },
 			center: func(p []float64) (float64, float64) {
 				return p[0] * p[1], math.Sqrt(p[1]*p[0]*(1-p[0])) + 1
 			},
@@ -326,10 +326,10 @@ func init() {
 			},
 			gen:      func(r *prng.Rand) []float64 { return []float64{r.LogUniform(1e-3, 300)} },
 			directed: [][]float64{{1}, {0.25}, {30}},
-			pclass:  typical,
-			support: func(p []float64) (float64, float64, bool) { return 0, inf, true },
-			center:  func(p []float64) (float64, float64) { return p[0], math.Sqrt(p[0]) + 1 },
-			invalid: []invalidClass{{"lambda<=0", []float64{0}}, {"lambda<=0", []float64{-2}}},
+			pclass:   typical,
+			support:  func(p []float64) (float64, float64, bool) { return 0, inf, true },
+			center:   func(p []float64) (float64, float64) { return p[0], math.Sqrt(p[0]) + 1 },
+			invalid:  []invalidClass{{"lambda<=0", []float64{0}}, {"lambda<=0", []float64{-2}}},
 		},
 		{
 			name: "geometric", // p (1-p)^k, k >= 0
@@ -372,9 +372,9 @@ func init() {
 				return p
 			},
 			directed: [][]float64{{1}, {0.5, 0.5}, {0.25, 0.25, 0.5}, {0.5, 0, 0.5}},
-			pclass: func(p []float64) string { return "any" },
-			support: func(p []float64) (float64, float64, bool) { return 0, float64(len(p) - 1), true },
-			center:  func(p []float64) (float64, float64) { return float64(len(p)-1) / 2, float64(len(p)) },
+			pclass:   func(p []float64) string { return "any" },
+			support:  func(p []float64) (float64, float64, bool) { return 0, float64(len(p) - 1), true },
+			center:   func(p []float64) (float64, float64) { return float64(len(p)-1) / 2, float64(len(p)) },
 			invalid: []invalidClass{{"theta<=0", []float64{-0.25, 1.25}}, {"theta>1", []float64{1.5, 0.5}},
 				{"sum!=1", []float64{0.25, 0.25}}, {"empty", []float64{}}},
 		},
@@ -390,10 +390,10 @@ func init() {
 				return []float64{r.LogUniform(0.1, 200)}
 			},
 			directed: [][]float64{{1}, {2}, {3}, {4.5}},
-			pclass:  typical,
-			support: func(p []float64) (float64, float64, bool) { return 0, inf, false },
-			center:  func(p []float64) (float64, float64) { return p[0], math.Sqrt(2 * p[0]) },
-			invalid: []invalidClass{{"k<=0", []float64{0}}, {"k<=0", []float64{-2}}},
+			pclass:   typical,
+			support:  func(p []float64) (float64, float64, bool) { return 0, inf, false },
+			center:   func(p []float64) (float64, float64) { return p[0], math.Sqrt(2 * p[0]) },
+			invalid:  []invalidClass{{"k<=0", []float64{0}}, {"k<=0", []float64{-2}}},
 		},
 		{
 			name: "exponential", // lambda = rate
@@ -435,9 +435,9 @@ func init() {
 				return []float64{1 + r.LogUniform(0.05, 20), r.LogUniform(0.01, 100)}
 			},
 			directed: [][]float64{{2, 1}, {1.5, 2}, {3.5, 0.5}},
-			pclass:  typical,
-			support: func(p []float64) (float64, float64, bool) { return p[1], inf, false },
-			center:  func(p []float64) (float64, float64) { return p[1], p[1] * math.Max(1/(p[0]-1), 0.05) },
+			pclass:   typical,
+			support:  func(p []float64) (float64, float64, bool) { return p[1], inf, false },
+			center:   func(p []float64) (float64, float64) { return p[1], p[1] * math.Max(1/(p[0]-1), 0.05) },
 			invalid: []invalidClass{{"alpha<=0", []float64{0, 1}}, {"alpha<=0", []float64{-1, 1}}, {"alpha=1", []float64{1, 1}},
 				{"0<alpha<1", []float64{0.5, 1}}, {"xmin<=0", []float64{2, 0}}, {"xmin<=0", []float64{2, -1}}},
 		},
